@@ -4728,7 +4728,11 @@ class Terminated(Construct):
         self.flagbuildnone = True
 
     def _parse(self, stream, context, path):
-        if stream.read(1):
+        try:
+            data = stream.read(1)
+        except Exception:
+            raise StreamError("stream read failed", path=path)
+        if data:
             raise TerminatedError("expected end of stream", path=path)
 
     def _build(self, obj, stream, context, path):
